@@ -352,6 +352,9 @@ class Parser(BaseParser):
         self.macros = CaseInsensitiveDict(macros)
         self.person_fields = CaseInsensitiveSet(person_fields)
         self.keyless_entries = keyless_entries
+        # per reader, not per file: the key-less entries of a later file must not
+        # get the keys already given to those of an earlier file
+        self.unnamed_entry_counter = 1
 
     def process_entry(self, entry_type, key, fields):
         entry = Entry(entry_type)
@@ -387,7 +390,6 @@ class Parser(BaseParser):
         report_error(error)
 
     def parse_string(self, text):
-        self.unnamed_entry_counter = 1
         self.command_start = 0
 
         entry_iterator = LowLevelParser(
